@@ -26,7 +26,9 @@ func Str(s string) *Val {
 }
 
 func Time(t time.Time) *Val {
-	v := TimeVal{Val{types.Time}, t}
+	// 同一时刻在不同时区 / 带单调时钟读数时 String() 不同, 而 == 只比较时刻;
+	// 统一成本地时区并去掉单调时钟, 保证相等的时间渲染 / 作为 key 也相同
+	v := TimeVal{Val{types.Time}, t.Round(0).Local()}
 	return &v.Val
 }
 
